@@ -197,6 +197,28 @@ def run_check(modname, tier, seed, workers=None, only_units=None):
         pool = ctx.Pool(workers, initializer=_worker_init, initargs=(modname, reclimit),
                         maxtasksperchild=getattr(mod, "MAXTASKS", None))
         results = pool.imap_unordered(_worker_run, args, chunksize=getattr(mod, "CHUNK", 1))
+    findings = [f for f in load_findings() if pid in f["properties"]]
+    open_f = [f for f in findings if f["status"] == "open"]
+    hits = collections.Counter()
+    unlisted = collections.OrderedDict()      # sig -> [first violation, count]
+
+    def attribute(v):
+        for f in open_f:
+            pred = F.SCOPES.get(f["id"])
+            if pred is None:
+                continue
+            try:
+                ok = pred(pid, v)
+            except Exception:
+                ok = False
+            if ok:
+                hits[f["id"]] += 1
+                return
+        slot = unlisted.get(v["sig"])
+        if slot is None:
+            unlisted[v["sig"]] = [v, 1]
+        else:
+            slot[1] += 1
     try:
         for idx, r, err in results:
             if err == "timeout":
@@ -205,7 +227,7 @@ def run_check(modname, tier, seed, workers=None, only_units=None):
                 if hook is not None:
                     v = hook(units[idx])
                     if v is not None:
-                        agg.violations.append(v)
+                        attribute(v)
                         continue
                 harness_errors.append(f"unit {idx} timed out after {timeout}s: {jsonable(units[idx])!r:.300}")
                 continue
@@ -217,7 +239,8 @@ def run_check(modname, tier, seed, workers=None, only_units=None):
             agg.transitions += r.transitions
             agg.states += r.states
             agg.outcomes.update(r.outcomes)
-            agg.violations.extend(r.violations)
+            for v in r.violations:
+                attribute(v)         # judged as they arrive: a thorough run may report millions of known-finding cases
             for ck, cv in r.counters.items():
                 if ck.startswith("max_"):
                     agg.counters[ck] = max(agg.counters[ck], cv)
@@ -237,29 +260,7 @@ def run_check(modname, tier, seed, workers=None, only_units=None):
     if use_keys:
         agg.nontrivial = len(nontrivial_keys)
 
-    # ---- findings attribution -------------------------------------------------
-    findings = [f for f in load_findings() if pid in f["properties"]]
-    open_f = [f for f in findings if f["status"] == "open"]
-    hits = collections.Counter()
-    unlisted = collections.OrderedDict()
-    for v in agg.violations:
-        fid = None
-        for f in open_f:
-            pred = F.SCOPES.get(f["id"])
-            if pred is None:
-                continue
-            try:
-                ok = pred(pid, v)
-            except Exception:
-                ok = False
-            if ok:
-                fid = f["id"]
-                break
-        if fid:
-            hits[fid] += 1
-        else:
-            unlisted.setdefault(v["sig"], []).append(v)
-
+    # ---- findings attribution: see attribute() above --------------------------
     lines = []
     for f in open_f:
         if hits[f["id"]]:
@@ -274,15 +275,14 @@ def run_check(modname, tier, seed, workers=None, only_units=None):
             os.remove(os.path.join(rdir, old))     # replays of earlier runs of this property are stale
     nondeterministic = []
     nviol = 0
-    for k, (sig, vs) in enumerate(unlisted.items()):
-        v = vs[0]
+    for k, (sig, (v, vcount)) in enumerate(unlisted.items()):
         if k >= 50:      # replay files are capped; the evidence file has the full count
             nviol += 1
             continue
         path = os.path.join(rdir, f"{pid}-{k + 1:04d}.json")
         with open(path, "w") as fh:
             json.dump(dict(property=pid, module=modname, sig=sig, clause=v["clause"],
-                           outcome=v["outcome"], detail=v["detail"], count=len(vs),
+                           outcome=v["outcome"], detail=v["detail"], count=vcount,
                            case=jsonable(v["case"])), fh, indent=1)
         if getattr(mod, "CONFIRM_REPLAY", True) and k < 20 and v["clause"] != "timeout":
             ok = []
